@@ -106,3 +106,57 @@ Proof.
     destruct (Z.eqb_spec v2 version_ssl); [contradiction|reflexivity].
 Qed.
 Print Assumptions C10_same_limit_behind_sslrequest.
+
+(* "the message after it is processed normally", over whole streams: when the client's stream consists of Sync and
+   Flush messages and of REJECTED messages (above the limit and present in full, or with a declared length below the
+   minimum; of any type but Terminate), in whatever order and number, and the connection got as far as handling its
+   first command, then every Sync of the stream is answered by a ReadyForQuery in its own turn — a rejected message
+   is skipped in exactly its extent and swallows nothing of what follows it. First for every log the executable
+   reply-discipline oracle accepts (so also for logs observed on the implementation in lock-step), then for the
+   model's log of every scriptable case. *)
+Require Import Spec.OracleFactsSyncs.
+
+Theorem C10_accepted_logs_answer_every_sync : forall sc log st ts,
+  oracle_turns sc log = true -> forallb plain_frame (client_frames sc) = true ->
+  turns log = st :: ts -> ts <> [] ->
+  (syncs (client_frames sc) <= readies (List.concat ts))%nat.
+Proof. exact oracle_turns_answers_syncs. Qed.
+Print Assumptions C10_accepted_logs_answer_every_sync.
+
+Theorem C10_rejected_messages_swallow_nothing : forall sc st ts,
+  case_nocopy sc = true ->
+  (forall v after rest, start (cfg_of_case sc) (sc_raw sc) = Some (v, after, rest) -> v <> version_ssl) ->
+  forallb plain_frame (client_frames sc) = true ->
+  turns (run_case sc) = st :: ts -> ts <> [] ->
+  (syncs (client_frames sc) <= readies (List.concat ts))%nat.
+Proof.
+  intros sc st ts Hn Hs Hp Ht Hne.
+  exact (oracle_turns_answers_syncs sc (run_case sc) st ts (oracle_turns_model_auth sc Hn Hs) Hp Ht Hne).
+Qed.
+Print Assumptions C10_rejected_messages_swallow_nothing.
+
+(* non-vacuity: a stream of a too-short length, a Sync, an oversized Query, a Flush, an oversized Parse and two
+   Syncs under a limit of 16 bytes meets the hypotheses; its three Syncs get three ReadyForQuery (two more answer the
+   two rejected Queries) *)
+From Coq Require Import String.
+Local Open Scope string_scope.
+Local Open Scope list_scope.
+Definition ex_plain_case : scase :=
+  {| sc_limit := 16; sc_auth := None; sc_params := []; sc_version := []; sc_tls := false; sc_mws := [];
+     sc_term := None; sc_parse := [];
+     sc_raw := (let body := be32 196608 ++ [x00] in be32 (4 + lenZ body) ++ body) ++
+               (x51 :: be32 2) ++
+               client_msg x53 [] ++
+               client_msg x51 (cstr (bs "a query text beyond the limit")) ++
+               client_msg x48 [] ++
+               client_msg x50 (cstr (bs "s") ++ cstr (bs "a statement beyond the limit") ++ be16 0) ++
+               client_msg x53 [] ++ client_msg x53 [];
+     sc_tlsin := None |}.
+Example C10_ex_plain :
+  case_nocopy ex_plain_case = true /\
+  (exists v after rest, start (cfg_of_case ex_plain_case) (sc_raw ex_plain_case) = Some (v, after, rest) /\ v = 196608) /\
+  forallb plain_frame (client_frames ex_plain_case) = true /\
+  List.length (client_frames ex_plain_case) = 7%nat /\
+  syncs (client_frames ex_plain_case) = 3%nat /\
+  (exists st ts, turns (run_case ex_plain_case) = st :: ts /\ List.length ts = 7%nat /\ readies (List.concat ts) = 5%nat).
+Proof. vm_compute. repeat split. do 3 eexists. split; reflexivity. do 2 eexists. repeat split. Qed.
